@@ -12,6 +12,7 @@ require (
 	github.com/massnetorg/mass-core v0.0.0-20210809014450-d944e876e3fb
 	github.com/patrickmn/go-cache v2.1.0+incompatible
 	github.com/rs/cors v1.7.0
+	github.com/sirupsen/logrus v1.2.0
 	github.com/spf13/cobra v0.0.5
 	github.com/spf13/jwalterweatherman v1.0.0
 	github.com/spf13/viper v1.5.0
@@ -20,10 +21,10 @@ require (
 	github.com/tecbot/gorocksdb v0.0.0-20190705090504-162552197222
 	golang.org/x/crypto v0.0.0-20210322153248-0c34fe9e7dc2
 	golang.org/x/net v0.0.0-20210226172049-e18ecbb05110
+	golang.org/x/text v0.3.3
 	google.golang.org/genproto v0.0.0-20190927181202-20e1ac93f88c
 	google.golang.org/grpc v1.24.0
 	massnet.org/mass-wallet v0.0.0
 )
 
 replace massnet.org/mass-wallet => /repo
-
